@@ -1138,6 +1138,17 @@ Fixpoint esc_nl (s : string) : string :=
     (if Nat.eqb n 10 then "\n" else if Nat.eqb n 92 then "\\" else if Nat.eqb n 13 then "\r" else String c "") ++ esc_nl r
   end.
 
+(* the values of a unit are rendered when the unit has finished (as the harness does), with the store of
+   that moment: a later unit may mutate a vector / box that an earlier unit returned *)
+Fixpoint run_history_rendered (fuel : nat) (units : list (list expr)) (st : state) : list string * state :=
+  match units with
+  | [] => ([], st)
+  | u :: r =>
+    let '(res, st') := run_unit fuel u st in
+    let '(rs, st'') := run_history_rendered fuel r st' in
+    (render_unit st' res :: rs, st'')
+  end.
+
 Definition render_history (fuel : nat) (units : list (list expr)) : string :=
-  let '(rs, st) := run_history fuel units init_state in
-  join " ;; " (map (render_unit st) rs) ++ " ;; OUT " ++ esc_nl (String.concat "" (rev (out st))).
+  let '(rs, st) := run_history_rendered fuel units init_state in
+  join " ;; " rs ++ " ;; OUT " ++ esc_nl (String.concat "" (rev (out st))).
